@@ -49,6 +49,13 @@ namespace ops {
 template<class Arg, class... Args>
   constexpr Arg first_of(Arg arg, Args... args) { return arg; }
 
+template<class T, class tag> struct eqmod;
+
+// a == b holds when all the coefficients are equal, the other expressions
+// convert to true when at least one coefficient is non-zero
+template<class Op> struct is_eqmod : std::false_type {};
+template<class T, class tag> struct is_eqmod<eqmod<T, tag>> : std::true_type {};
+
 template <class Op, class... Args>
 struct expr {
   using simd_mode = typename Op::simd_mode;
@@ -87,11 +94,11 @@ struct expr {
         alignas(32) value_type tmp[vector_size];
         simd_mode::store(tmp, load<simd_mode>(cm, j));
         for(size_t k = 0; k < vector_size; ++k)
-          if(tmp[k])
-            return true;
+          if(is_eqmod<Op>::value ? !tmp[k] : !!tmp[k])
+            return !is_eqmod<Op>::value;
       }
     }
-    return false;
+    return is_eqmod<Op>::value;
   }
 
 };
